@@ -1,28 +1,112 @@
 #!/usr/bin/env python3
 """Regenerates MANIFEST.json from the table below (kept in one place so it is
-always schema-valid)."""
+always schema-valid).  A property is claimed only if props/<id>.py exists AND
+it has an entry here."""
 import json
 import os
 
 HERE = os.path.dirname(os.path.dirname(os.path.abspath(__file__)))
 ALL = ["C%02d" % i for i in range(1, 21)]
 
+EXPL = ("Held on every case executed; sampled, not exhaustive, except for the finite sub-spaces the evidence marks exhaustive. "
+        "Right level because the property quantifies over unbounded inputs and the oracle is exact for each execution.")
+TRUST = "Trusts lib/zckref.py (written from zchunk_format.txt), Python hashlib, system libzstd; ASan/UBSan red-zone limits."
+
 CHECKS = {
-    "C01": dict(level="exploration", ref="DESIGN.md 5 C01",
+    "C01": dict(level="exploration",
                 technique="runtime differential monitoring: write with real library under ASan/UBSan, read back through library (generated buffer-size sequences) and an independent reference decoder; CPU-time bound on the write path; zck/unzck end to end",
                 text="Held on every generated (content, configuration, segmentation, read sequence) case executed; sampled, not exhaustive. Right level because the property quantifies over unbounded inputs/configurations and the oracle (byte equality with the written content, plus an independent decoder) is exact for each execution.",
-                note="Trusts lib/zckref.py (written from zchunk_format.txt), Python hashlib, system libzstd; inputs <= 2 MiB; ASan/UBSan red-zone limits."),
+                note=TRUST + " Inputs <= 2 MiB."),
+    "C02": dict(level="exploration",
+                technique="runtime monitoring of the real reader (library + unzck, ASan/UBSan) on mutated and re-sealed files; offline oracle over the read event log: success implies equality with an independent reference decoder",
+                text=EXPL + " One-directional oracle (success => equals reference content).",
+                note=TRUST + " Corruption patterns limited to the mutation grammar; hash collisions out of scope."),
+    "C03": dict(level="exploration",
+                technique="sanitizer monitoring (ASan+UBSan, signals, CPU-time bound) of the public API (random op programs) and all command-line tools on re-sealed hostile headers, raw mutations and libFuzzer-generated inputs",
+                text=EXPL + " A clean sanitizer run is not memory safety: red-zone tools miss far and intra-object overflows.",
+                note="Counts ASan/UBSan reports, fatal signals and CPU-bound overruns (DESIGN 3.1, 3.3); nonnull-attribute and leaks not counted."),
+    "C04": dict(level="exploration",
+                technique="offline checker over the recorded request/response/valid-flag history of the documented update procedure run in-process against a server holding B (and the real zckdl against a loopback range server in the thorough tier): final bytes == B, requested bytes == exactly the stored extents of the chunks neither valid in the target nor present in A",
+                text=EXPL,
+                note=TRUST + " Expected fetch set computed from A, B and the initial target by the reference parser only."),
+    "C05": dict(level="exploration",
+                technique="runtime monitoring of the download callbacks under every 1-/2-cut fragmentation of small responses (exhaustive) and sampled fragmentations of larger ones; agreement across fragmentations, model image computed in Python, write(2) interposer log for confinement",
+                text=EXPL + " The 1- and 2-cut fragmentation spaces of the small responses are enumerated completely.",
+                note=TRUST + " Response shapes limited to the grammar in DESIGN 5 C05."),
+    "C06": dict(level="exploration",
+                technique="exhaustive single-byte mutation of the header region (every position x every other value) of sample files through the real open path under ASan; independent header checksum recomputation with hashlib",
+                text="Every single-byte substitution of every header byte of each sample file is executed (exhaustive over that finite space); insertions/deletions and digest transplants sampled. Right level: the property is a statement about each header byte.",
+                note="Independent checksum from Python hashlib; sample files cover the 4 lead checksum types, flags, dict/no dict, detached headers."),
+    "C07": dict(level="exploration",
+                technique="runtime enumeration of pinned-digest strings (every position x all 256 byte values), lengths, type/length pins and pin-vs-actual grids through the real option setters and lead readers; oracle = Python int(x,16) / byte equality",
+                text=EXPL + " The per-position byte enumeration of the digest string is exhaustive.",
+                note="Oracle: Python string/hex semantics; reference parse of the file's lead."),
+    "C08": dict(level="exploration",
+                technique="offline checker over zck_copy_chunks / zck_find_matching_chunks runs: valid flags vs hashlib recomputation over the target's bytes, write(2) interposer log + image diff for confinement, source hash before/after",
+                text=EXPL,
+                note=TRUST),
+    "C09": dict(level="exploration",
+                technique="runtime monitoring of zck_find_valid_chunks / zck_validate_checksums / zck_validate_data_checksum on generated on-disk states: flags and verdicts vs hashlib recomputation, interposer log proves no write, read-after-validation equals read-without",
+                text=EXPL + " All 4^n chunk-state combinations are enumerated for the smallest files.",
+                note=TRUST),
+    "C10": dict(level="exploration",
+                technique="runtime monitoring of zck_get_missing_range / zck_get_range_char / range index on validity vectors established through the public API (all 2^n vectors for small n, exhaustive) against a Python set computation over the chunk table; ASan on the string builder",
+                text=EXPL + " All validity vectors of the small indexes x all limits are enumerated completely.",
+                note=TRUST),
+    "C11": dict(level="fault_enumeration",
+                technique="kill-point enumeration: the update procedure is killed at every write(2) to the target (several byte offsets inside each write) via a link-time interposer, then resumed in a fresh process; offline checker over the resume's request log and the snapshot taken at the kill",
+                text="Every target write of each scenario is a kill point and each is executed with several partial-transfer sizes (exhaustive per scenario); scenarios sampled. Right level: the property quantifies over interruption points of a finite execution.",
+                note=TRUST + " Interruption modelled at write(2) granularity; no power-loss reordering."),
+    "C12": dict(level="fault_enumeration",
+                technique="fault enumeration: every read/write/lseek on every descriptor class in each scenario is failed (EIO/ENOSPC/EINTR), shortened or zeroed via link-time and LD_PRELOAD interposers; oracle: success reported => the bytes that reached the descriptor are complete and correct",
+                text="For each scenario a fault-free run counts the calls per (syscall, descriptor class); every k-th call is then re-run under each fault kind (exhaustive per scenario). Right level: the property quantifies over failure points of a finite execution.",
+                note=TRUST + " (INJECTED) markers in the log prove each fault fired."),
+    "C13": dict(level="exploration",
+                technique="runtime differential monitoring: dump of every public getter + chunk iteration and zck_read_header output vs independent reference parse of reference-writer headers (boundary grid, re-sealed)",
+                text=EXPL,
+                note=TRUST),
+    "C14": dict(level="exploration",
+                technique="runtime monitoring of zck_get_chunk_data / zck_get_chunk_comp_data request sequences (all sequences up to length 2/3 for small files) against reference slices; history independence via position-independent expectation",
+                text=EXPL + " All request sequences up to the stated length are enumerated for the smallest files.",
+                note=TRUST),
+    "C15": dict(level="exploration",
+                technique="runtime monitoring of zck_read on zstd files with single-bit body corruption: every successfully returned byte attributed to its chunk via the reference index; a byte from a chunk whose stored bytes mismatch its checksum is a violation",
+                text=EXPL,
+                note=TRUST),
+    "C16": dict(level="exploration",
+                technique="runtime differential monitoring of the writer: byte equality of outputs across write-call segmentations and fresh processes; chunk tables of edited inputs compared (prefix/suffix locality); automatic chunk sizes vs effective bounds read from the writer context",
+                text=EXPL,
+                note=TRUST),
+    "C17": dict(level="exploration",
+                technique="sanitizer monitoring (ASan+UBSan, signals, CPU bound) of the download callbacks fed structured hostile header lines / bodies and libFuzzer-generated responses; write(2) interposer log for confinement; valid flags vs hashlib",
+                text=EXPL,
+                note="Counts ASan/UBSan reports, fatal signals, CPU-bound overruns; confinement judged from the interposer's write log."),
+    "C18": dict(level="exploration",
+                technique="differential execution of the two real builds (OpenSSL and bundled SHA) with Python hashlib as third party: digests over all lengths 0..520 x segmentations, random long messages, and cross-build write/read of files",
+                text=EXPL + " Message lengths 0..520 x 4 types are enumerated completely for whole/1-byte/every-split segmentations.",
+                note="Third party: Python hashlib."),
+    "C19": dict(level="exploration",
+                technique="ThreadSanitizer (happens-before race detection) over multi-threaded workloads on distinct contexts, reports filtered to library frames; per-thread outputs compared with a serial run",
+                text="Held on the interleavings executed; TSan reports an unsynchronised conflicting pair whenever both accesses execute, so reach comes from every scenario pair being co-scheduled.",
+                note="TSan only sees instrumented code (library + harness); OpenSSL/zstd internals uninstrumented."),
+    "C20": dict(level="exploration",
+                technique="runtime enumeration with guard-page monitor: every byte string of length <= 3 and boundary strings of length 8..11 through the real decoders with a PROT_NONE page behind the buffer; exact expectation from 128-bit / Python integer arithmetic; ASan pass",
+                text="All byte strings of length <= 3 at every (cursor, limit) are enumerated completely; longer encodings sampled on the boundary grid.",
+                note="Oracle: exact integer arithmetic (unsigned __int128 in the harness, Python ints cross-check)."),
 }
 
-NOT_YET = "check not implemented yet in this round (planned in DESIGN.md 5); not claimed"
+REASON_NOT_YET = "check not built yet (design in DESIGN.md 5); not claimed"
+NOT_APPLICABLE = {}
 
 
 def main():
     checks = []
+    claimed = []
     for pid in ALL:
         c = CHECKS.get(pid)
-        if not c:
+        if not c or not os.path.exists(os.path.join(HERE, "props", pid.lower() + ".py")) or pid in NOT_APPLICABLE:
             continue
+        claimed.append(pid)
         checks.append({
             "property_id": pid,
             "quick_cmd": "./check %s --tier quick" % pid,
@@ -30,7 +114,7 @@ def main():
             "evidence_file": "evidence/%s.json" % pid,
             "replay_cmd_template": "./check %s --replay {path}" % pid,
             "engine": "zckv",
-            "level_claimed": {"category": c["level"], "text": c["text"], "design_ref": c["ref"]},
+            "level_claimed": {"category": c["level"], "text": c["text"], "design_ref": "DESIGN.md 5 " + pid},
             "level_note": c["note"],
             "technique": c["technique"],
         })
@@ -44,15 +128,16 @@ def main():
             "source_commits": [],
             "add_only": True,
         },
-        "engines": [{"name": "zckv", "path": "check", "serves_properties": sorted(CHECKS),
+        "engines": [{"name": "zckv", "path": "check", "serves_properties": claimed,
                      "kind_free_text": "python driver + C harnesses run against sanitizer builds of /repo's working tree; offline oracles over event logs"}],
         "checks": checks,
         "notes": "All checks rebuild /repo's working tree in a private scratch directory on every invocation. Exit 0 held / 1 VIOLATION / 2 harness failure.",
-        "not_applicable": [{"property_id": p, "reason": NOT_YET} for p in ALL if p not in CHECKS],
+        "not_applicable": [{"property_id": p, "reason": NOT_APPLICABLE.get(p, REASON_NOT_YET)} for p in ALL if p not in claimed],
     }
     with open(os.path.join(HERE, "MANIFEST.json"), "w") as f:
         json.dump(m, f, indent=1)
         f.write("\n")
+    print("claimed:", " ".join(claimed))
 
 
 if __name__ == "__main__":
